@@ -2,6 +2,7 @@
 import os
 from lib import common
 import tables
+import pyk2coq, sites
 
 
 def regenerate():
@@ -10,4 +11,10 @@ def regenerate():
         changed.append("Inventory.v")
     if common.write_if_changed(os.path.join(common.GEN, "Tables.v"), tables.tables_v(common.REPO)):
         changed.append("Tables.v")
+    kv, _ = pyk2coq.kernels_v(common.REPO)
+    if common.write_if_changed(os.path.join(common.GEN, "Kernels.v"), kv):
+        changed.append("Kernels.v")
+    sv, _ = sites.sites_v(common.REPO)
+    if common.write_if_changed(os.path.join(common.GEN, "SiteTable.v"), sv):
+        changed.append("SiteTable.v")
     return changed
